@@ -87,36 +87,32 @@ class ParserState:
         if not whitespace_rule and not comment_rule:
             return False
 
-        children: list[Pair] = []
         some = False
 
+        # WHITESPACE* ~ (COMMENT ~ WHITESPACE*)*
         with self.suppress_failures():
             while True:
-                matched = False
-
                 if whitespace_rule:
-                    matched = whitespace_rule.parse(self, children)
-                    if matched:
+                    while self._parse_trivia_rule(whitespace_rule, pairs):
                         some = True
-                        pairs.extend(children)
-                        # continue
-                    children.clear()
 
-                if comment_rule:
-                    self.checkpoint()
-                    matched = comment_rule.parse(self, children) or matched
-                    if matched:
-                        some = True
-                        pairs.extend(children)
-                        self.ok()
-                    else:
-                        self.restore()
-                    children.clear()
-
-                if not matched:
+                if not comment_rule or not self._parse_trivia_rule(comment_rule, pairs):
                     break
 
+                some = True
+
         return some
+
+    def _parse_trivia_rule(self, rule: Rule, pairs: list[Pair]) -> bool:
+        """Match an implicit rule once, leaving no trace if it fails part way."""
+        children: list[Pair] = []
+        self.checkpoint()
+        if rule.parse(self, children):
+            self.ok()
+            pairs.extend(children)
+            return True
+        self.restore()
+        return False
 
     def checkpoint(self) -> None:
         """Take a snapshot of the current state for potential backtracking.
@@ -202,9 +198,10 @@ class ParserState:
     @contextmanager
     def suppress_failures(self) -> Iterator[ParserState]:
         """A context manager that prevents rules contributing to failures."""
+        suppressed = self._suppress_failures
         self._suppress_failures = True
         yield self
-        self._suppress_failures = False
+        self._suppress_failures = suppressed
 
     @contextmanager
     def tag(self, tag_: str) -> Iterator[ParserState]:
